@@ -58,10 +58,12 @@ def consts_in(e, out=None):
 
 
 def _conversion_steps_rule(ctx, wdt):
-    """convert_wdt applies one structural step per format boundary crossed.  The steps are independent: whether a step runs depends
-    only on its own boundary test, for every ordered pair of versions (a conversion can cross several boundaries).  Decided by
-    evaluating each step's full path condition and its innermost guard over all version pairs."""
-    R = ctx.rule("C18.conversion-steps-are-independent", "for all ordered version pairs, each convert_* step in convert_wdt runs exactly when its own boundary test holds (its path condition equals its innermost guard)", floor=4)
+    """convert_wdt applies one structural step per format boundary crossed, and a conversion can cross several.  Spelling-free
+    formulation: the set of steps run for a -> b (each step's full path condition, evaluated) equals the union of the sets run
+    for a -> m and m -> b, for every m strictly between a and b, in both directions, over all version triples; and no step runs
+    for a == b's neighbours in the wrong direction (an upgrade runs no downgrade step).  A chain of `else if` fails it (a -> b
+    runs one step where a -> m -> b runs two), whatever the conditions are called."""
+    R = ctx.rule("C18.conversion-steps-compose", "for all version triples a < m < b (and a > m > b): steps(a -> b) == steps(a -> m) ∪ steps(m -> b), where steps(x -> y) is the set of convert_* calls of convert_wdt whose path condition holds", floor=4)
     from .c07 import enclosing_if_conditions
     from .c10 import _bval, _NoEval
     f = next((x for x in wdt.fn_list if x.hir and x.kind != "Closure" and norm(x.path).endswith("conversion::convert_wdt")), None)
@@ -73,6 +75,7 @@ def _conversion_steps_rule(ctx, wdt):
     names = [v["name"] for v in ver.get("variants", [])]
     ordn = {n: i for i, n in enumerate(names)}
     body = f.hir["body"]
+    lets = {l["pat"]["name"]: l["init"] for l in hirq.find(body, "let") if l["pat"].get("k") == "bind" and l.get("init") is not None}
     steps = [c_ for c_ in hirq.calls(body) if re.search(r"conversion::convert_\w+$", c_.get("fn") or "") and not (c_.get("fn") or "").endswith("convert_wdt")]
     if len(steps) < 2:
         ctx.bad(R, "convert_wdt|steps", f.where, "fewer than two convert_* steps found", "shape changed")
@@ -80,30 +83,40 @@ def _conversion_steps_rule(ctx, wdt):
     pn = [b for p_ in f.hir["params"] for b in hirq.pat_binds(p_)]
     fv = next((p_ for p_ in pn if "from" in p_), None)
     tv = next((p_ for p_ in pn if p_.startswith("to")), None)
+    conds = {}
     for st in steps:
-        conds = [(w, cd) for w, cd in enclosing_if_conditions(body, st) if w in ("then", "else")]
-        nm = (st.get("fn") or "").split("::")[-1]
-        if not conds or conds[-1][0] != "then":
-            ctx.bad(R, "convert_wdt|%s|unguarded" % nm, "%s:%d" % (f.file, st.get("ln") or 0), "step %s is not under a boundary test of its own" % nm, "the step runs for conversions that do not cross its boundary")
-            continue
-        try:
-            diff = None
-            for a in names:
-                for b in names:
-                    if a == b:
+        conds[(st.get("fn") or "").split("::")[-1]] = [(w, cd) for w, cd in enclosing_if_conditions(body, st) if w in ("then", "else")]
+
+    def run_set(a, b):
+        env = {fv: ordn[a], tv: ordn[b], "__leaf__": (lambda r_: ordn.get(r_))}
+        return frozenset(nm for nm, cs in conds.items() if all((_bval(cd, env, lets) if w == "then" else not _bval(cd, env, lets)) for w, cd in cs))
+    try:
+        bad = None
+        n_tr = 0
+        for a in names:
+            for b in names:
+                if a == b:
+                    continue
+                lo, hi = sorted((ordn[a], ordn[b]))
+                for m in names:
+                    if not (lo < ordn[m] < hi):
                         continue
-                    env = {fv: ordn[a], tv: ordn[b], "__leaf__": (lambda r_: ordn.get(r_))}
-                    own = _bval(conds[-1][1], env, {})
-                    full = all((_bval(cd, env, {}) if w == "then" else not _bval(cd, env, {})) for w, cd in conds)
-                    if own != full and diff is None:
-                        diff = (a, b, own, full)
-            if diff:
-                ctx.bad(R, "convert_wdt|%s|dependent" % nm, "%s:%d" % (f.file, st.get("ln") or 0), "converting %s -> %s crosses the boundary of %s (its own test is %s) but the step %s" % (diff[0], diff[1], nm, diff[2], "runs" if diff[3] else "is skipped because an earlier branch was taken"),
-                        "a conversion across two boundaries applies only one structural change: the file claims the target version but carries (or lacks) the other boundary's chunks and flags")
-            else:
-                ctx.ok(R, {"step": nm, "guard": hirq.render(conds[-1][1])[:70], "pairs": len(names) * (len(names) - 1)})
-        except _NoEval as e:
-            ctx.bad(R, "convert_wdt|%s|not-evaluable" % nm, "%s:%d" % (f.file, st.get("ln") or 0), "guard not evaluable: %s" % e, "shape changed")
+                    n_tr += 1
+                    direct, via = run_set(a, b), run_set(a, m) | run_set(m, b)
+                    if direct != via and bad is None:
+                        bad = (a, m, b, sorted(direct), sorted(via))
+        never = [nm for nm in conds if not any(nm in run_set(a, b) for a in names for b in names if a != b)]
+        if bad:
+            ctx.bad(R, "convert_wdt|not-compositional", f.where, "%s -> %s runs %s, but %s -> %s -> %s runs %s" % (bad[0], bad[2], bad[3] or "no step", bad[0], bad[1], bad[2], bad[4]),
+                    "a conversion across two format boundaries applies only part of the structural changes: the file claims the target version but carries (or lacks) the other boundary's chunks and flags")
+        elif never:
+            ctx.bad(R, "convert_wdt|dead-step|%s" % never[0], f.where, "step %s runs for no pair of versions" % never[0], "its boundary is never converted")
+        else:
+            for nm in sorted(conds):
+                ctx.ok(R, {"step": nm, "runs_for_pairs": sum(1 for a in names for b in names if a != b and nm in run_set(a, b))})
+            ctx.ok(R, {"triples": n_tr})
+    except _NoEval as e:
+        ctx.bad(R, "convert_wdt|not-evaluable", f.where, "a step's guard is not evaluable over the versions: %s" % e, "shape changed")
 
 
 def _wdl_capability_rule(ctx, wdl):
